@@ -9,7 +9,21 @@ use std::collections::{BTreeMap, BTreeSet};
 use std::io::{BufRead, Write};
 use std::time::Instant;
 
-pub const VERIF_DIR: &str = "/verif";
+/// The verification tree the process works in: the directory `./check` was started from (it
+/// changes into its own directory first), so that a snapshot copy writes its evidence and replay
+/// files into itself.
+pub fn verif_dir() -> String {
+    static DIR: std::sync::OnceLock<String> = std::sync::OnceLock::new();
+    DIR.get_or_init(|| {
+        let cwd = std::env::current_dir().map(|p| p.to_string_lossy().into_owned()).unwrap_or_else(|_| "/verif".into());
+        if std::path::Path::new(&format!("{cwd}/known_findings.json")).exists() {
+            cwd
+        } else {
+            "/verif".into()
+        }
+    })
+    .clone()
+}
 
 #[derive(Clone, Debug, Serialize, Deserialize)]
 pub struct Found {
@@ -173,7 +187,7 @@ struct KnownFinding {
 }
 
 fn load_known() -> KnownFindings {
-    let p = format!("{VERIF_DIR}/known_findings.json");
+    let p = format!("{}/known_findings.json", verif_dir());
     match std::fs::read_to_string(&p) {
         Ok(s) => serde_json::from_str(&s).unwrap_or_else(|e| {
             eprintln!("lsim: cannot parse {p}: {e}");
@@ -419,8 +433,8 @@ pub fn check_main(args: &[String]) -> i32 {
             h ^= b as u64;
             h = h.wrapping_mul(0x100000001b3);
         }
-        let path = format!("{VERIF_DIR}/replays/{prop}-{:08x}.json", (h ^ (h >> 32)) as u32);
-        std::fs::create_dir_all(format!("{VERIF_DIR}/replays")).ok();
+        let path = format!("{}/replays/{prop}-{:08x}.json", verif_dir(), (h ^ (h >> 32)) as u32);
+        std::fs::create_dir_all(format!("{}/replays", verif_dir())).ok();
         std::fs::write(&path, serde_json::to_string_pretty(&rf).unwrap()).expect("write replay file");
         // the replay must reproduce in a fresh process, otherwise nothing is claimed
         let st = std::process::Command::new(&exe).args(["replay", &path, "--quiet"]).status().expect("spawn replay");
@@ -496,8 +510,8 @@ pub fn check_main(args: &[String]) -> i32 {
     });
     // (triage sweeps with other seeds or run counts pass --no-evidence)
     if !args.iter().any(|a| a == "--no-evidence") {
-        std::fs::create_dir_all(format!("{VERIF_DIR}/evidence")).ok();
-        std::fs::write(format!("{VERIF_DIR}/evidence/{prop}.json"), serde_json::to_string_pretty(&ev).unwrap()).expect("write evidence");
+        std::fs::create_dir_all(format!("{}/evidence", verif_dir())).ok();
+        std::fs::write(format!("{}/evidence/{prop}.json", verif_dir()), serde_json::to_string_pretty(&ev).unwrap()).expect("write evidence");
     }
     println!(
         "{} runs ({} executions, {} distinct non-trivial, {} distinct schedules) in {:.1}s; violations: {}",
